@@ -44,8 +44,10 @@ type FileCase struct {
 	FailAt   int     `json:"failat"`   // k-th load after opening fails
 	NotFound bool    `json:"notfound"` // injected error kind
 	Timeout  bool    `json:"timeout"`  // injected errors report themselves as timeouts
+	ErrKind  string  `json:"errkind"`  // injected error kind that wins over both: eofwrap (an I/O error wrapping io.EOF) | unexpectedeof
 	Mode     string  `json:"mode"`     // free tag: hist | seq | range | fault ...
 	Script   [][]any `json:"script"`
+	NilCtx   bool    `json:"nilctx"` // the node is opened with a zero LinkContext / nil context (as the repository's own tests do)
 }
 
 func makeContent(kind string, n int, seed int64) []byte {
@@ -199,6 +201,9 @@ func rewriteOwn(st *Store, c cid.Cid, mode string, isRoot bool) (format.Node, er
 		fs := d.Blocksizes[0]
 		d.Filesize = &fs
 	}
+	if mode == "nofs" && len(pn.Links()) > 0 {
+		d.Filesize = nil // FileSize is optional: the length is then what the links add up to
+	}
 	if mode == "mtime" && isRoot {
 		sec := int64(-86400)
 		d.Mtime = &pb.IPFSTimestamp{Seconds: &sec}
@@ -209,7 +214,56 @@ func rewriteOwn(st *Store, c cid.Cid, mode string, isRoot bool) (format.Node, er
 	}
 	nd := merkledag.NodeWithData(db)
 	nd.SetCidBuilder(cid.V1Builder{Codec: cid.DagProtobuf, MhType: multihash.SHA2_256})
+	// "zmid" / "zend" / "zpb" / "zlead": the root gets one more child that holds no bytes (an empty raw leaf after the first
+	// child / at the end; an empty dag-pb file node after the first child), with a BlockSizes entry of 0
+	zeroAt := -1
+	if isRoot && len(pn.Links()) > 0 && (mode == "zmid" || mode == "zend" || mode == "zpb" || mode == "zlead") {
+		zeroAt = 1
+		if mode == "zend" {
+			zeroAt = len(pn.Links())
+		}
+		if mode == "zlead" {
+			zeroAt = 0 // the file *begins* with a child that holds no bytes
+		}
+		bs := append([]uint64{}, d.Blocksizes[:min(zeroAt, len(d.Blocksizes))]...)
+		bs = append(bs, 0)
+		bs = append(bs, d.Blocksizes[min(zeroAt, len(d.Blocksizes)):]...)
+		d.Blocksizes = bs
+		db, err = proto.Marshal(d)
+		if err != nil {
+			return nil, err
+		}
+		nd = merkledag.NodeWithData(db)
+		nd.SetCidBuilder(cid.V1Builder{Codec: cid.DagProtobuf, MhType: multihash.SHA2_256})
+	}
+	addZero := func() error {
+		var z format.Node
+		if mode == "zpb" {
+			t := pb.Data_File
+			fs := uint64(0)
+			zd, err := proto.Marshal(&pb.Data{Type: &t, Filesize: &fs})
+			if err != nil {
+				return err
+			}
+			zn := merkledag.NodeWithData(zd)
+			zn.SetCidBuilder(cid.V1Builder{Codec: cid.DagProtobuf, MhType: multihash.SHA2_256})
+			z = zn
+		} else {
+			zn, err := merkledag.NewRawNodeWPrefix([]byte{}, cid.Prefix{Version: 1, Codec: cid.Raw, MhType: multihash.SHA2_256, MhLength: 32})
+			if err != nil {
+				return err
+			}
+			z = zn
+		}
+		st.Put(z.Cid(), z.RawData())
+		return nd.AddNodeLink("", z)
+	}
 	for i, l := range pn.Links() {
+		if i == zeroAt {
+			if err := addZero(); err != nil {
+				return nil, err
+			}
+		}
 		var child format.Node
 		if mode == "mixed" && i == 0 && l.Cid.Prefix().Codec == cid.Raw {
 			raw, _ := st.Get(l.Cid)
@@ -233,12 +287,34 @@ func rewriteOwn(st *Store, c cid.Cid, mode string, isRoot bool) (format.Node, er
 			return nil, err
 		}
 	}
+	if zeroAt == len(pn.Links()) {
+		if err := addZero(); err != nil {
+			return nil, err
+		}
+	}
 	st.Put(nd.Cid(), nd.RawData())
 	return nd, nil
 }
 
+// wrapOne puts one more level on top of a file: a file node whose only link is the given root (a raw leaf or a link node).
+func wrapOne(st *Store, nd format.Node, total uint64) (format.Node, error) {
+	t := pb.Data_File
+	wd, err := proto.Marshal(&pb.Data{Type: &t, Filesize: &total, Blocksizes: []uint64{total}})
+	if err != nil {
+		return nil, err
+	}
+	wn := merkledag.NodeWithData(wd)
+	wn.SetCidBuilder(cid.V1Builder{Codec: cid.DagProtobuf, MhType: multihash.SHA2_256})
+	if err := wn.AddNodeLink("", nd); err != nil {
+		return nil, err
+	}
+	st.Put(wn.Cid(), wn.RawData())
+	return wn, nil
+}
+
 func buildFileCase(st *Store, fc *FileCase, content []byte) (cid.Cid, uint64, error) {
-	if fc.Writer == "own-mixed" || fc.Writer == "own-mtime" || fc.Writer == "own-inline" {
+	if fc.Writer == "own-mixed" || fc.Writer == "own-mtime" || fc.Writer == "own-inline" || fc.Writer == "own-nofs" ||
+		fc.Writer == "own-zmid" || fc.Writer == "own-zend" || fc.Writer == "own-zpb" || fc.Writer == "own-zlead" || fc.Writer == "own-wrap1" || fc.Writer == "own-shortfs" {
 		c, sz, err := buildOwnFile(st, bytes.NewReader(content), fc.Chunker, fc.W)
 		if err != nil {
 			return c, sz, err
@@ -246,6 +322,11 @@ func buildFileCase(st *Store, fc *FileCase, content []byte) (cid.Cid, uint64, er
 		nd, err := rewriteOwn(st, c, fc.Writer[4:], true)
 		if err != nil {
 			return c, sz, err
+		}
+		if fc.Writer == "own-wrap1" {
+			if nd, err = wrapOne(st, nd, uint64(len(content))); err != nil {
+				return c, sz, err
+			}
 		}
 		nsz, _ := nd.Size()
 		return nd.Cid(), nsz, nil
@@ -276,11 +357,15 @@ func lbnOf(n ipld.Node) (io.ReadSeeker, error) {
 	return bytes.NewReader(b), nil
 }
 
-func openFileNode(ls *ipld.LinkSystem, root ipld.Node, mode string) (ipld.Node, error) {
+func openFileNode(ls *ipld.LinkSystem, root ipld.Node, mode string, nilCtx ...bool) (ipld.Node, error) {
 	lctx := ipld.LinkContext{Ctx: context.Background()}
+	var ctx context.Context = context.Background()
+	if len(nilCtx) > 0 && nilCtx[0] {
+		lctx, ctx = ipld.LinkContext{}, nil
+	}
 	switch mode {
 	case "direct":
-		return file.NewUnixFSFile(context.Background(), root, ls)
+		return file.NewUnixFSFile(ctx, root, ls)
 	case "reify":
 		return unixfsnode.Reify(lctx, root, ls)
 	case "preload":
@@ -307,12 +392,26 @@ func num(x any) int {
 func runFileCase(fc *FileCase, tr *Tr) error {
 	st := NewStore()
 	content := makeContent(fc.Content, fc.Len, fc.Seed)
+	own := fc.Writer == "" || strings.HasPrefix(fc.Writer, "own")
 	root, size, err := buildFileCase(st, fc, content)
 	if err != nil {
+		if own {
+			// this library's builder refused a valid input, or what it stored cannot be post-processed: recorded
+			tr.Emit(M{"ev": "reset", "case": caseString(fc)})
+			tr.Emit(M{"ev": "unwalkable", "err": "build: " + err.Error(), "e": "nil"})
+			return nil
+		}
 		return fmt.Errorf("build: %w", err)
 	}
 	fw, err := walkFile(st, root)
 	if err != nil {
+		if own {
+			// the builder returned a link, but the DAG cannot be read back from the store it was built into
+			// (a block is absent or undecodable): recorded, not a harness failure
+			tr.Emit(M{"ev": "reset", "case": caseString(fc)})
+			tr.Emit(M{"ev": "unwalkable", "err": err.Error(), "e": "nil"})
+			return nil
+		}
 		return err
 	}
 	tr.Emit(M{"ev": "reset", "case": caseString(fc)})
@@ -346,6 +445,7 @@ func runFileCase(fc *FileCase, tr *Tr) error {
 	}
 	st.notFound = fc.NotFound
 	st.timeout = fc.Timeout
+	st.errKind = fc.ErrKind
 	st.logLoads = true
 	st.loadCount = 0
 	st.failLoadAt = fc.FailAt
@@ -354,7 +454,7 @@ func runFileCase(fc *FileCase, tr *Tr) error {
 	openNode := func() error {
 		var n ipld.Node
 		var err error
-		if pm := guard(func() { n, err = openFileNode(ls, rootNode, fc.Open) }); pm != nil {
+		if pm := guard(func() { n, err = openFileNode(ls, rootNode, fc.Open, fc.NilCtx) }); pm != nil {
 			n, err = nil, pm
 		}
 		loads, failed := st.TakeLoads()
